@@ -4,6 +4,7 @@ package reactor
 
 import (
 	"fmt"
+	"sync/atomic"
 
 	"github.com/internetarchive/Zeno/internal/verifrt"
 	"github.com/internetarchive/Zeno/pkg/models"
@@ -168,4 +169,60 @@ func VerifH_C12_stop() {
 	verifrt.Assert(globalReactor == nil, "C12 stop clears the reactor")
 	e := ReceiveInsert(c12Seed(9))
 	verifrt.Assert(e == ErrReactorNotInitialized, "C12 stopped reactor accepts nothing")
+}
+
+// VerifH_C12_waiting_insert: an insert that waits for a token (pool full) is not in flight: it is not tracked while it
+// waits, a freeze rejects it without leaving anything behind, and a finish lets it in.
+func VerifH_C12_waiting_insert() {
+	verifrt.MapOrderAll(false)
+	maxTokens := 1 + verifrt.Choice("maxTokens-1", 2)
+	out := make(chan *models.Item, 8)
+	_ = Start(maxTokens, out)
+	r := globalReactor
+	for i := 0; i < maxTokens; i++ {
+		verifrt.Assert(ReceiveInsert(c12Seed(i)) == nil, "C12 insert with a free token is accepted")
+	}
+	late := c12Seed(50)
+	var e error
+	var returned atomic.Bool
+	verifrt.Go(func() { e = ReceiveInsert(late); returned.Store(true) })
+	verifrt.Quiesce()
+	verifrt.Assert(!returned.Load(), "C12 no more seeds in flight than tokens")
+	verifrt.Assert(len(r.tokenPool) == maxTokens && c12Tracked() == maxTokens && !c12IsTracked(late.GetID()),
+		"C12 a seed waiting for a token is not tracked (tracked seeds == tokens in use)")
+	first := <-out
+	if verifrt.Choice("then", 2) == 0 {
+		Freeze()
+		verifrt.Quiesce()
+		verifrt.Cover("waiting-insert-frozen")
+		verifrt.Assert(returned.Load() && e == ErrReactorFrozen, "C12 frozen reactor accepts nothing (waiting insert)")
+		verifrt.Assert(len(r.tokenPool) == maxTokens && c12Tracked() == maxTokens && !c12IsTracked(late.GetID()),
+			"C12 rejected insert has no side effect")
+		verifrt.Assert(MarkAsFinished(late) == ErrFinisehdItemNotFound, "C12 finish for a rejected seed is rejected")
+		verifrt.Assert(len(r.tokenPool) == maxTokens && c12Tracked() == maxTokens, "C12 rejected finish has no side effect")
+		var e2 error
+		b := verifrt.WouldBlock(func() { e2 = MarkAsFinished(first) })
+		verifrt.Assert(!b && e2 == nil, "C12 finishing a tracked seed succeeds")
+		verifrt.Assert(len(r.tokenPool) == maxTokens-1 && c12Tracked() == maxTokens-1, "C12 finish gives back exactly one token")
+	} else {
+		verifrt.Assert(MarkAsFinished(first) == nil, "C12 finishing a tracked seed succeeds")
+		verifrt.Quiesce()
+		verifrt.Cover("waiting-insert-admitted")
+		verifrt.Assert(returned.Load() && e == nil, "C12 a waiting insert is accepted once a token is free")
+		verifrt.Assert(len(r.tokenPool) == maxTokens && c12Tracked() == maxTokens && c12IsTracked(late.GetID()),
+			"C12 accepted seed takes exactly one token and is tracked")
+		found := false
+		for {
+			select {
+			case it := <-out:
+				if it == late {
+					found = true
+				}
+				continue
+			default:
+			}
+			break
+		}
+		verifrt.Assert(found, "C12 every accepted seed reaches the output")
+	}
 }
